@@ -150,7 +150,7 @@ Print Assumptions C47_mset_size_unknown.
    the spelling of a length prefix) for every input *)
 Theorem C47_mset_fast_slow_agree_encode :
   forall m, encode_slow m = encode m /\ size_slow m = size m.
-Proof. intros m. split; [exact (encode_fast_slow m)|exact (size_fast_slow m)]. Qed.
+Proof. exact encode_size_fast_slow. Qed.
 Print Assumptions C47_mset_fast_slow_agree_encode.
 
 Theorem C47_mset_fast_slow_agree :
